@@ -1,0 +1,34 @@
+//go:build verif
+
+// Contracts for the deductive verifier in /verif (govc). This file contains comments
+// only; it is compiled only with the build tag "verif" and then adds nothing but the
+// package clause.
+
+package common
+
+// SortPriorities is a closure over sort.SliceStable: its contract is assumed, not proved
+// (DESIGN.md §6.3): the result is a permutation of the argument, sorted from highest to lowest.
+//@ func SortPriorities
+//@   trusted
+//@   modifies elems(priorities), gPerm, gInv
+//@   ensures forall a, b :: 0 <= a && a < b && b < len(priorities) ==> priorities[a] >= priorities[b]
+//@   ensures forall a :: 0 <= a && a < len(priorities) ==> (0 <= gPerm[a] && gPerm[a] < len(priorities) && priorities[a] == oldat(priorities, gPerm[a]))
+//@   ensures forall b :: 0 <= b && b < len(priorities) ==> (0 <= gInv[b] && gInv[b] < len(priorities) && priorities[gInv[b]] == oldat(priorities, b))
+//@   ensures forall a, b :: 0 <= a && a < b && b < len(priorities) ==> gPerm[a] != gPerm[b]
+
+//@ func IsDistributionFilled
+//@   ensures [* C15 C18] result <==> (forall k :: dom(distribution, k) ==> distribution[k] != 0)
+//@   loop 0
+//@     invariant [*] forall k :: in($visited, k) ==> distribution[k] != 0
+
+//@ func SumPriorities
+//@   requires [*] lsum(priorities, len(priorities)) < two64
+//@   ensures [* C14] result == lsum(priorities, len(priorities))
+//@   assume-arith add-overflow[0]
+//@   loop 0
+//@     invariant [*] sum == lsum(priorities, $i)
+
+//@ func IsDistributionFilledFor
+//@   ensures [* C15 C18] result <==> (forall a :: 0 <= a && a < len(priorities) ==> distribution[priorities[a]] != 0)
+//@   loop 0
+//@     invariant [*] forall a :: 0 <= a && a < $i ==> distribution[priorities[a]] != 0
